@@ -234,6 +234,9 @@ type swStats struct {
 
 func (c *swStats) AfterInodeVisited(p string) {
 	s := c.s
+	if strings.HasPrefix(path.Base(p), padPrefix) {
+		return // padding of the "wide" mode
+	}
 	s.mu.Lock()
 	s.visited++
 	if s.cancelKind == "inode" && s.visited == s.cancelN {
@@ -242,6 +245,11 @@ func (c *swStats) AfterInodeVisited(p string) {
 	}
 	s.mu.Unlock()
 }
+
+const (
+	padPrefix = "~pad"
+	widePad   = 130
+)
 
 type swObs struct {
 	Mode         string         `json:"mode"`
@@ -361,7 +369,7 @@ func runScanWalk(c *swCase, mode, nmName, tmp string, faultKind int) (obs swObs)
 			}
 			continue
 		}
-		m := &memFS{nodes: map[string]*mnode{".": {kind: "dir"}}, faults: map[faultKey]error{}, stream: mode == "stream", id: r}
+		m := &memFS{nodes: map[string]*mnode{".": {kind: "dir"}}, faults: map[faultKey]error{}, stream: mode == "stream" || mode == "wide", id: r}
 		kids := map[string][]string{}
 		for _, n := range c.Nodes {
 			cp := mapPath(n.P, nm)
@@ -383,6 +391,27 @@ func runScanWalk(c *swCase, mode, nmName, tmp string, faultKind int) (obs swObs)
 				names[i] = path.Base(mapPath(p, nm))
 			}
 			m.nodes[mapPath(par, nm)].kids = names
+		}
+		if mode == "wide" {
+			// every directory additionally holds 2 x widePad plain files nobody requires, listed before and after
+			// its entries: stuttering steps of the specification (a handleFile call on a non-required file changes
+			// nothing when no inode limit is set), which make the listing longer than any batch the walker may read
+			var dirs []string
+			for p, n := range m.nodes {
+				if n.kind == "dir" {
+					dirs = append(dirs, p)
+				}
+			}
+			for _, d := range dirs {
+				var before, after []string
+				for i := 0; i < widePad; i++ {
+					b, a := fmt.Sprintf("%sa%03d", padPrefix, i), fmt.Sprintf("%sz%03d", padPrefix, i)
+					m.nodes[path.Join(d, b)] = &mnode{kind: "file", data: []byte("x")}
+					m.nodes[path.Join(d, a)] = &mnode{kind: "file", data: []byte("x")}
+					before, after = append(before, b), append(after, a)
+				}
+				m.nodes[d].kids = append(append(before, m.nodes[d].kids...), after...)
+			}
 		}
 		for i, f := range c.Cfg.Faults {
 			e := errPerm
@@ -585,6 +614,9 @@ func init() {
 				m := parts[0]
 				if m == "real" && (len(c.Cfg.Faults) > 0 || c.Cfg.Perm > 1 || c.Cfg.MaxInodes > 0 || c.Cfg.Cancel.Kind != "none" || idx%every != 0) {
 					continue // faults and listing orders cannot be imposed on a real directory
+				}
+				if m == "wide" && (len(c.Cfg.Faults) > 0 || c.Cfg.MaxInodes > 0) {
+					continue // padding shifts entry indices and consumes the inode budget
 				}
 				if m == "fallback" {
 					skip := false
